@@ -281,6 +281,7 @@ type Monitor struct {
 	NStatic  int64
 
 	live      map[uint32]*block
+	addrs     []uint32 // addresses of the live blocks, sorted
 	freed     map[uint32]bool
 	liveBytes int64
 	curMark   int
@@ -364,7 +365,14 @@ func (mo *Monitor) onMalloc(mem api.Memory, ctx context.Context, ptr, size uint3
 	if ptr == 0 {
 		return // out of memory is not this property's business
 	}
-	for a, b := range mo.live {
+	// overlap check against the address-ordered neighbours (mo.addrs is sorted)
+	i := sort.Search(len(mo.addrs), func(k int) bool { return mo.addrs[k] >= ptr })
+	for _, k := range []int{i - 1, i} {
+		if k < 0 || k >= len(mo.addrs) {
+			continue
+		}
+		a := mo.addrs[k]
+		b := mo.live[a]
 		if ptr < a+b.size && a < ptr+size {
 			mo.violate("malloc-overlaps-live-block", ptr, "malloc(%d) returned %#x which overlaps live block %#x (+%d, mirrored count %d)", size, ptr, a, b.size, b.count)
 			if a == ptr {
@@ -372,6 +380,11 @@ func (mo *Monitor) onMalloc(mem api.Memory, ctx context.Context, ptr, size uint3
 			}
 			break
 		}
+	}
+	if i >= len(mo.addrs) || mo.addrs[i] != ptr {
+		mo.addrs = append(mo.addrs, 0)
+		copy(mo.addrs[i+1:], mo.addrs[i:])
+		mo.addrs[i] = ptr
 	}
 	delete(mo.freed, ptr)
 	mo.live[ptr] = &block{size: size}
@@ -498,6 +511,9 @@ func (mo *Monitor) onFree(mem api.Memory, ctx context.Context, ptr uint32) {
 		mem.Write(ctx, ptr, buf)
 	}
 	delete(mo.live, ptr)
+	if i := sort.Search(len(mo.addrs), func(k int) bool { return mo.addrs[k] >= ptr }); i < len(mo.addrs) && mo.addrs[i] == ptr {
+		mo.addrs = append(mo.addrs[:i], mo.addrs[i+1:]...)
+	}
 	mo.freed[ptr] = true
 	mo.liveBytes -= int64(b.size)
 }
